@@ -285,6 +285,7 @@ pub fn run_translation(seed: u64, n: u64) -> TransOut {
                 out.samples.push(Json::obj().with("config", desc.clone()).with("class", class));
             }
             if let Some((oracle, msg)) = v {
+                *out.counters.entry("violating_cases".to_string()).or_insert(0) += 1;
                 if out.violations.len() < 6 {
                     out.violations.push((Violation { prop: "C18", oracle, msg }, Json::obj().with("engine", "c18_translation").with("seed", seed).with("phase", phase).with("index", i).with("config", desc)));
                 }
@@ -353,7 +354,10 @@ pub fn run_sections(seed: u64, n: u64) -> SectionOut {
                     recycle: if rng.chance(1, 3) { Some(Duration::from_secs(9)) } else { None },
                 }
             } else {
-                let vals = [None, Some(Duration::ZERO), Some(Duration::from_nanos(1)), Some(Duration::from_secs(7))];
+                // a third of the time only "none" and "zero": the combinations for which a runtime-free pool could work
+                let all = [None, Some(Duration::ZERO), Some(Duration::from_nanos(1)), Some(Duration::from_secs(7))];
+                let zeros = [None, Some(Duration::ZERO), Some(Duration::ZERO), Some(Duration::ZERO)];
+                let vals = if rng.chance(1, 3) { zeros } else { all };
                 let mut t = deadpool_postgres::Timeouts { wait: *rng.pick(&vals), create: *rng.pick(&vals), recycle: *rng.pick(&vals) };
                 if t.wait.is_none() && t.create.is_none() && t.recycle.is_none() {
                     t.wait = Some(Duration::from_secs(7));
